@@ -362,6 +362,7 @@ def _round_dense_x_to_integers(
                 'data',
                 shape=data.shape,
                 chunks=chunk_size,
+                maxshape=data.maxshape,
                 dtype=output_dtype)
 
             if chunk_size is None:
@@ -390,7 +391,8 @@ def _round_dense_x_to_integers(
                     'X',
                     data=src['data'][()],
                     dtype=src['data'].dtype,
-                    chunks=src['data'].chunks)
+                    chunks=src['data'].chunks,
+                    maxshape=src['data'].maxshape)
                 for k in attrs:
                     dataset.attrs.create(
                         name=k,
@@ -411,6 +413,7 @@ def _round_sparse_x_to_integers(
                 'data',
                 shape=data.shape,
                 chunks=chunk_size,
+                maxshape=data.maxshape,
                 dtype=output_dtype)
 
             if chunk_size is None:
@@ -435,7 +438,8 @@ def _round_sparse_x_to_integers(
                     'X/data',
                     data=src['data'][()],
                     dtype=src['data'].dtype,
-                    chunks=src['data'].chunks)
+                    chunks=src['data'].chunks,
+                    maxshape=src['data'].maxshape)
 
 
 def _is_dense_x_integers(
